@@ -27,7 +27,20 @@ KEYWORDS = {
     'SIMU': ['', '0.05 0.09 1.9'], 'DELU': ['', '0.02 0.03'], 'RIGU': ['', '0.005'], 'ISOR': ['', '0.11 0.21'],
     'FLAT': ['', '0.2'], 'CHIV': ['', '2.5 0.2'], 'EADP': [''], 'EXYZ': [''], 'NCSY': ['1', '2 0.2 0.06'],
 }
-NAMES = ['C1', 'N2', 'O3A', 'C14B']            # atom names in use (<= 4 characters)
+
+
+def restraint_keywords():
+    """the keywords `_parse_cards` appends to `shx.restraints`, read off the source of the tree under test; a keyword
+    this table does not know yet is generated with no numeric parameter"""
+    src = (core.REPO / 'shelxfile' / 'shelx' / 'shelx.py').read_text()
+    found = re.findall(r'_append_card\(\s*self\.restraints\s*,\s*([A-Za-z_]\w*)\s*\(', src)
+    kws = dict(KEYWORDS)
+    for k in found:
+        kws.setdefault(k.upper(), [''])
+    return kws, sorted(set(k.upper() for k in found))
+
+
+NAMES = ['C1', 'N2', 'O3A', 'C14B', 'N5']      # atom names in use (<= 4 characters); one per token of a restraint
 CLASSES = ['CCF3', 'TOL', 'B2']               # a class starts with a letter and may contain digits
 NUMBERS = [1, 2, 3, 4, 7, 11, 23, 105]         # residue numbers in use
 ELEMENT_SFAC = {'C': 1, 'N': 2, 'O': 3}
@@ -139,31 +152,39 @@ def pairset(l):
 # evaluation
 
 def classify_case(kw, toks, spec):
-    tags = []
     sfx = kw.partition('_')[2]
     kmode = 'kw=none' if '_' not in kw else 'kw=star' if sfx == '*' else 'kw=num' if sfx.isdigit() else 'kw=class'
     if kmode == 'kw=class':
         kmode += '' if spec['classKnown'] else '-unknown'
-    tags.append(kmode)
-    for t in toks:
-        if t in '<>':
-            tags.append('tok=range')
-        elif t.startswith('$'):
-            tags.append('tok=$E')
-        elif '_$' in t:
-            tags.append('tok=_$n')
-        elif t.endswith('_*'):
-            tags.append('tok=_*')
-        elif '_' in t:
-            tags.append('tok=_n')
-        else:
-            tags.append('tok=bare')
-    return kmode, sorted(set(tags))
+    return kmode, sorted({kmode} | {token_kind(t) for t in toks})
 
 
-def signature(kmode, tok_tags, direction, stream):
-    special = [t for t in tok_tags if t in ('tok=_$n', 'tok=_*', 'tok=$E', 'tok=range')]
-    return f'C17|{stream}|{kmode}|{"+".join(special) if special else "tok=plain"}|{direction}'
+def token_kind(t):
+    if t in ('<', '>', '='):
+        return 'tok=range'
+    if t.startswith('$'):
+        return 'tok=$E'
+    if '_$' in t:
+        return 'tok=_$n'
+    if t.endswith('_*'):
+        return 'tok=_*'
+    if '_' in t:
+        return 'tok=_n'
+    return 'tok=bare'
+
+
+def signature(kmode, toks, pairs, direction, stream):
+    """site of the divergence: the kind of the token the first differing (NAME, residue) pair belongs to; for a bare
+    token the keyword suffix decides, so it is part of the site"""
+    site = 'tok=?'
+    for nm, _ in sorted(pairs):
+        t = next((t for t in toks if t.upper().split('_')[0] == nm and not t.startswith('$')), None)
+        if t is not None:
+            site = token_kind(t)
+            break
+    if site in ('tok=bare', 'tok=?'):
+        site = f'{kmode}|{site}'
+    return f'C17|{stream}|{site}|{direction}'
 
 
 def evaluate(ctx, cases, stream=None):
@@ -235,12 +256,12 @@ def evaluate(ctx, cases, stream=None):
                     break
         if culprit:
             ri, rcase, robs = culprit
-            kmode, ttags = kinds[ri]
+            kmode, _ = kinds[ri]
             rgot = [pairset(l) for l in robs['lists']]
             rspec = [spec_lists[ri]] if spec_lists[ri] else []
             rmodel = [model_lists[ri]] if model_lists[ri] else []
         else:
-            ri = next((i for i in range(len(rs)) if True), 0)
+            ri = 0
             rcase, robs, rgot, rspec, rmodel = case, obs, got, exp_spec, exp_model
             # signature from the restraint whose expectation differs first
             pos = 0
@@ -250,28 +271,31 @@ def evaluate(ctx, cases, stream=None):
                         ri = i
                         break
                     pos += 1
-            kmode, ttags = kinds[ri]
+            kmode, _ = kinds[ri]
         flat_got = {p for l in rgot for p in l}
         flat_spec = {p for l in rspec for p in l}
+        flat_model = {p for l in rmodel for p in l}
+        rtoks = [t for line in rcase['restraints'] for t in split_restraint(line)[1]] if culprit is None else split_restraint(rcase['restraints'][0])[1]
         payload = dict(case=rcase, stream='missing', text=render(rcase), expected=rspec, actual=rgot, messages=robs['raw'], model=rmodel)
+        where = f' (residues {[(b[0], b[1]) for b in rcase["blocks"] if b[1]]})'
         if bad_prop:
             if flat_got - flat_spec:
-                direction = 'false-warning'
-                what = f'{rcase["restraints"]}: reports {sorted(flat_got - flat_spec)}, which exist or are not addressed'
+                direction, diff = 'false-warning', flat_got - flat_spec
+                what = f'{rcase["restraints"]}: reports {sorted(diff)}, which exist or are not addressed'
             elif flat_spec - flat_got:
-                direction = 'missed-warning'
-                what = f'{rcase["restraints"]}: does not report {sorted(flat_spec - flat_got)}, which exist in no addressed residue'
+                direction, diff = 'missed-warning', flat_spec - flat_got
+                what = f'{rcase["restraints"]}: does not report {sorted(diff)}, which exist in no addressed residue'
             elif rgot != rspec:
-                direction = 'grouping'
+                direction, diff = 'grouping', flat_spec
                 what = f'{rcase["restraints"]}: reported {rgot}, expected per restraint {rspec}'
             else:
-                direction = 'message-without-missing'
+                direction, diff = 'message-without-missing', set()
                 what = f'{rcase["restraints"]}: every addressed atom exists, yet messages {robs["raw"]}'
-            ctx.fail(signature(kmode, ttags, direction, 'missing'), what + f' (residues {[(b[0], b[1]) for b in rcase["blocks"]]})', payload)
+            ctx.fail(signature(kmode, rtoks, diff, direction, 'missing'), what + where, payload)
         else:
             payload['stream'] = 'model'
-            ctx.fail(signature(kmode, ttags, 'differs', 'model'),
-                     f'{rcase["restraints"]}: implementation reports {rgot} (messages: {robs["nmsg"]}), model {rmodel}', payload,
+            ctx.fail(signature(kmode, rtoks, flat_got ^ flat_model, 'differs', 'model'),
+                     f'{rcase["restraints"]}: implementation reports {rgot} (messages: {robs["nmsg"]}), model {rmodel}' + where, payload,
                      kind='correspondence')
 
 
@@ -374,7 +398,7 @@ def residue_layouts(rng, thorough):
         for ncls in range(1, 4):
             if ncls > nres:
                 continue
-            variants = 2 if thorough else 1
+            variants = 8 if thorough else 1
             for v in range(variants):
                 nums = rng.sample(NUMBERS, nres)
                 cls = rng.sample(CLASSES + [''], ncls)
@@ -434,6 +458,7 @@ CASINGS = [dict(), dict(names_restr='lower'), dict(names_atoms='lower'), dict(cl
 
 def grid(rng, thorough):
     """the bounded-exhaustive part: layouts x keyword modes x token patterns x (all present | each single one absent)"""
+    KEYWORDS, _ = restraint_keywords()
     kws = list(KEYWORDS)
     i = 0
     for resis in residue_layouts(rng, thorough):
@@ -454,9 +479,29 @@ def grid(rng, thorough):
                             yield c
 
 
+def keyword_cross(rng, thorough):
+    """every restraint keyword (each parameter form) x every keyword suffix x every token pattern, on a few layouts"""
+    KEYWORDS, _ = restraint_keywords()
+    layouts = [l for l in residue_layouts(rng, False) if len(l) in (0, 3, 5)]
+    layouts = layouts[:1] + rng.sample(layouts[1:], 3 if thorough else 1)
+    for resis in layouts:
+        for kwname, forms in KEYWORDS.items():
+            for params in forms:
+                for kwmode in kw_modes(resis, rng):
+                    for pi, pattern in enumerate(TOKEN_PATTERNS):
+                        tokmodes = instantiate(pattern, resis, rng)
+                        for absent in (None, rng.randrange(8)):
+                            yield build_case(rng, kwname, kwmode, tokmodes, resis, 'full' if (pi + len(kwname)) % 2 else 'minimal', absent,
+                                             CASINGS[(pi + len(params)) % len(CASINGS)], params)
+
+
 def random_case(rng):
+    KEYWORDS, _ = restraint_keywords()
     layouts = residue_layouts(rng, False)
-    resis = rng.choice(layouts)
+    resis = list(rng.choice(layouts))
+    if resis and rng.random() < 0.25:
+        # a residue continued in a second block further down (registered twice under the same number)
+        resis.append(rng.choice(resis))
     n = rng.choice([1, 1, 2, 3])
     cases = []
     for _ in range(n):
@@ -494,16 +539,29 @@ def run(ctx):
                        'residue 0 is addressed only by default or by _0 (this is what tests/test_restraints.py fixes for NAME_*)',
                        'a RESI card without class is registered by the code under the class name RESI; no generated restraint uses that class']
     thorough = ctx.tier == 'thorough' or ctx.escalated
+    _, in_source = restraint_keywords()
+    ctx.extra['restraint_keywords_in_source'] = in_source
+    if set(in_source) - set(KEYWORDS):
+        ctx.note(f'restraint keywords in the source that the table of this check does not know: {sorted(set(in_source) - set(KEYWORDS))}')
+    if set(KEYWORDS) - set(in_source):
+        ctx.broken.append(f'extract: keywords no longer appended to shx.restraints by _parse_cards: {sorted(set(KEYWORDS) - set(in_source))}')
     cases = []
     g = list(grid(ctx.rng, thorough))
     if not thorough:
         ctx.rng.shuffle(g)
-        g = g[:ctx.budget(1500, len(g))]
+        g = g[:ctx.budget(1200, len(g))]
     else:
         ctx.exhaustive = True
-        ctx.extra['grid'] = f'{len(g)} files: layouts x keyword modes x {len(TOKEN_PATTERNS)} token patterns x fill x (present | each of up to 8 single absences)'
+        ctx.extra['grid'] = f'{len(g)} files: layouts x keyword modes x {len(TOKEN_PATTERNS)} token patterns x fill x (present | each single absence, up to 12)'
     cases += g
-    for _ in range(ctx.budget(600, 20000)):
+    kc = list(keyword_cross(ctx.rng, thorough))
+    if not thorough:
+        ctx.rng.shuffle(kc)
+        kc = kc[:500]
+    else:
+        ctx.extra['keyword_cross'] = f'{len(kc)} files: 13 keywords x parameter forms x keyword suffixes x {len(TOKEN_PATTERNS)} token patterns on 4 layouts'
+    cases += kc
+    for _ in range(ctx.budget(600, 60000)):
         cases.append(random_case(ctx.rng))
     for i in range(0, len(cases), 2000):
         evaluate(ctx, cases[i:i + 2000])
